@@ -147,6 +147,15 @@ def bounded_subfields(reg, tier, seed):
                         cands.append(bytes(rng.choice((0, 0, 0, 1, 255)) for _ in range(ln)))
                     else:
                         cands.append(bytes(ln))
+            if var == "NameValue":
+                # name-value lists as simulators send them (text lines "name type class sendto value", the value may be empty)
+                cands = list(cands) + [b"FirstName STRING RW SV Test\nLastName STRING RW SV User\x00", b"Title STRING RW SV \x00", b"Title STRING RW DS \x00",
+                                       b"Title STRING RW DS \nLastName STRING RW DS Resident\x00", b"AttachItemID STRING RW SV 1f4ffb55-022e-49fb-8c63-6f159aed9b24\x00",
+                                       b"A STRING RW SV x\nB STRING RW SV \nC STRING RW SV z\x00", b"\x00", b""]
+            if var == "Throttles":
+                import struct as st__
+                cands = list(cands) + [st__.pack("<7f", 0.0, 0.0, 0.0, 0.0, 0.0, 0.0, 0.0), st__.pack("<7f", -0.0, 0.0, 1.0, 2.0, 3.0, 4.0, 5.0),
+                                       st__.pack("<7f", 1.0, 2.0, 3.0, 4.5, 0.0, -1.0, 1e6)]
             if var == "TextureEntry":
                 tes = te_payloads(rng, 120 if tier == "quick" else 2000)
                 if "ImprovedTerse" in msg:
@@ -196,6 +205,24 @@ def bounded_subfields(reg, tier, seed):
                                     if repr(getattr(o_, "__wrapped__", o_)) != fresh_obj:
                                         fail(f"subfield/forms/{name}", f"{name}: after the message was rendered, deserialize_var hands out {repr(o_)[:80]} "
                                              f"instead of the object form {fresh_obj[:80]}", {"field": name, "payload": _h(p), "order": order})
+                                if order == "object-first" and isinstance(p, (bytes, bytearray)) and len(p) >= 4:
+                                    # serialize_var after deserialize_var on the same block: the value handed in is what gets encoded, also
+                                    # when it compares equal to the cached one (0.0 and -0.0 do) or IS the cached one, edited in place
+                                    for alt in (bytes(p[:-1]) + bytes([p[-1] ^ 0x80]), bytes([p[0] ^ 0x80]) + bytes(p[1:])):
+                                        try:
+                                            d_alt = ser.deserialize(bb, alt, pod=False)
+                                            want_alt = ser.serialize(bb, d_alt)
+                                        except Exception:  # noqa
+                                            continue
+                                        b3 = _ctx_block(msg, block, **cv)
+                                        b3.vars[var] = p
+                                        _SM(msg, b3)
+                                        b3.deserialize_var(var, make_copy=False)
+                                        b3.serialize_var(var, d_alt)
+                                        if bytes(b3.vars[var]) != bytes(want_alt):
+                                            fail(f"subfield/forms/{name}", f"{name}: serialize_var on a block whose cache was filled by deserialize_var left "
+                                                 f"{_h(b3.vars[var])[:60]} in the field; the value handed in encodes to {_h(want_alt)[:60]}",
+                                                 {"field": name, "payload": _h(p), "value_from": _h(alt)})
                                 back = _HS.from_human_string(text)
                                 got = back[block][0].vars[var] if block in back.blocks else None
                                 if isinstance(want_pod, (bytes, bytearray)) and bytes(got) != bytes(want_pod):
